@@ -199,6 +199,12 @@ def families(thorough):
     for t in (['begin', 'select'], ['begin', 'set', 'select'], ['begin', 'P', 'B', 'E', 'S']):
         s.append(Case(t, stop='drop', idle_timeout=True))
     F['timeouts'] = s
+    # -- a replica that times out a statement (two replicas: the other one stays usable), the client still there or already gone
+    s = []
+    for t in (['sleep'], ['select', 'sleep'], ['begin', 'sleep']):
+        for stop in ('X', 'eof', 'drop'):
+            s.append(Case(t, stop=stop, stmt_timeout=True, roles=(1, 1)))
+    F['failover'] = s
     # -- a second client after the first: nothing of the first is visible to it
     s = []
     for a, pa in ((["q:SET TimeZone TO 'Asia/Tokyo'", 'select'], {'application_name': 'app_a'}), (['begin', "q:SET DateStyle TO 'German'", 'commit'], {}),
@@ -251,6 +257,11 @@ def families(thorough):
         for t in (["q:SET SERVER ROLE TO '%s'" % role, 'select'], ["q:SET SERVER ROLE TO '%s'" % role, 'q:SHOW SERVER ROLE', 'begin', 'select', 'commit'],
                   ["q:SET SERVER ROLE TO '%s'" % role, 'select', "q:SET SERVER ROLE TO 'primary'", 'select2']):
             s.append(Case(t, stop='X', shards=[(0, 1)], custom=True))
+    # an explicit role choice outlives the transaction it was made in -- also when the POOL has the query parser on (SET SERVER ROLE switches it
+    # off for the session) and a default_role other than the chosen one
+    for role, dflt in (('primary', 'replica'), ('replica', 'primary')):
+        for t in (["q:SET SERVER ROLE TO '%s'" % role, 'select', 'select2', 'begin', 'select', 'commit'], ["q:SET SERVER ROLE TO '%s'" % role, 'P', 'B', 'E', 'S', 'select']):
+            s.append(Case(t, stop='X', shards=[(0, 1)], custom=True, pool_parser=dflt))
     for t in (["q:SET PRIMARY READS TO 'on'", 'q:SHOW PRIMARY READS', 'select'], ["q:SET PRIMARY READS TO 'off';", 'select']):
         s.append(Case(t, stop='X', shards=[(0, 1)], custom=True))
     # routing by comment (shard_id_regex / sharding_key_regex of the example configuration), in a simple Query and in a Parse, with the
@@ -296,6 +307,7 @@ DESCR = {
     'two-clients': 'a first client (tracked-parameter SETs, named statements with caching on, an open transaction / COPY / session state at EOF) followed by a second client on the same server connections with its own parameters, statement names and requests',
     'copy': 'COPY IN sessions whose CopyData chunks have sizes on both sides of the 8196-byte forwarding threshold (1-3 chunks, CopyDone or CopyFail, then another query)',
     'commands': 'sessions that use the pooler commands (SET SHARD / SET SHARDING KEY with SYMBOLIC decimal digits, SHOW SHARD, SET SERVER ROLE, SET PRIMARY READS, and sharding_key / shard_id comments in a Query or a Parse) on a pool of two shards or of a primary and a replica, outside and inside BEGIN',
+    'failover': 'two replicas, statement_timeout configured, a statement the backend is slow on: the replica that timed out must be banned, also when the client has already gone',
     'two-backends': 'a pool of two servers (replica+replica, primary+replica): either may be handed out at each checkout',
 }
 
@@ -322,7 +334,7 @@ def handle_obligations(chk, prog, props, fams):
     tasks = []
     for fam in fams:
         cases = F[fam]
-        n = max(1, min(12, len(cases) // (4 if fam in ('status', 'plugins', 'malformed', 'commands', 'cache', 'params', 'two-clients', 'timeouts', 'shutdown', 'checkout-failures') else 40)))
+        n = max(1, min(12, len(cases) // (4 if fam in ('status', 'plugins', 'malformed', 'commands', 'cache', 'params', 'two-clients', 'timeouts', 'failover', 'shutdown', 'checkout-failures') else 40)))
         for i in range(n):
             tasks.append((prog, fam, i, n, cases[i::n], set(props)))
     chk.parallel(_run_chunk, tasks)
